@@ -122,6 +122,88 @@ func (s *verifSys) checkInvariants(step int) {
 	}
 }
 
+// checkCausality: on node i, the committed order extends ancestry — if event x
+// is an ancestor of event y (by the coordinates the node itself maintains) and
+// both carry committed transactions, x's transactions come first.
+func (s *verifSys) checkCausality(i int) {
+	nd := s.nodes[i]
+	pos := map[string]int{}
+	k := 0
+	for _, b := range nd.blocks {
+		for _, tx := range b.Transactions() {
+			pos[string(tx)] = k
+			k++
+		}
+	}
+	var evs []*hg.Event
+	for _, p := range s.peers {
+		hashes, err := nd.c.hg.Store.ParticipantEvents(p.PubKeyString(), -1)
+		if err != nil {
+			continue
+		}
+		for _, h := range hashes {
+			if ev, err := nd.c.hg.Store.GetEvent(h); err == nil && len(ev.Transactions()) > 0 {
+				evs = append(evs, ev)
+			}
+		}
+	}
+	for _, x := range evs {
+		px, okx := pos[string(x.Transactions()[0])]
+		if !okx {
+			continue
+		}
+		for _, y := range evs {
+			if x == y {
+				continue
+			}
+			anc, err := nd.c.hg.Store.GetEvent(y.Hex())
+			if err != nil {
+				continue
+			}
+			_ = anc
+			isAnc := false
+			if x.Creator() == y.Creator() {
+				isAnc = x.Index() < y.Index()
+			} else {
+				// x is an ancestor of y iff y's other-parent chain reaches x: use the
+				// parent links (independent of the consensus coordinates)
+				isAnc = verifReaches(nd.c.hg.Store, y, x, 0)
+			}
+			py, oky := pos[string(y.Transactions()[0])]
+			if isAnc && oky {
+				verifAssert("committed-order-extends-ancestry", px < py)
+			}
+		}
+	}
+}
+
+// verifReaches follows parent links from y looking for x (bounded depth-first search).
+func verifReaches(st hg.Store, y, x *hg.Event, depth int) bool {
+	if depth > 200 {
+		return false
+	}
+	for _, ph := range []string{y.SelfParent(), y.OtherParent()} {
+		if ph == "" {
+			continue
+		}
+		if ph == x.Hex() {
+			return true
+		}
+		p, err := st.GetEvent(ph)
+		if err != nil {
+			continue
+		}
+		// prune: x cannot be an ancestor of an event its creator made earlier
+		if p.Creator() == x.Creator() && p.Index() < x.Index() {
+			continue
+		}
+		if verifReaches(st, p, x, depth+1) {
+			return true
+		}
+	}
+	return false
+}
+
 func verifSysRun(steps int, window int, droppable int) {
 	s := verifNewSys(3)
 	n := 3
@@ -148,6 +230,7 @@ func verifSysRun(steps int, window int, droppable int) {
 		}
 		s.checkInvariants(st)
 	}
+	s.checkCausality(0)
 	total := 0
 	for _, nd := range s.nodes {
 		total += len(nd.blocks)
@@ -172,3 +255,8 @@ func VerifHarness_C01_O8() {
 // C02/O5 — the same bounded system-level run, for its per-node clauses: block
 // indexes consecutive from zero, round-received strictly increasing.
 func VerifHarness_C02_O5() { VerifHarness_C01_O8() }
+
+
+// C04/O6 — the same bounded system-level run, for causality: committed order
+// extends the ancestry computed from the parent links.
+func VerifHarness_C04_O6() { VerifHarness_C01_O8() }
